@@ -127,12 +127,13 @@ def rule_fiber(ctx, E_dm):
     ctx.check("C07.4", lhs == b2 * h, fi, dop_stmt, "DM(D=beta2*h) exponent vs FIBER beta2 term * h", "equal forms (1e-24 = (1e-12)^2)",
               f"DM uses {lhs!r} but FIBER uses {b2 * h!r}: the two implementations of the same filter disagree")
     # C07.5 / C08.1 step accounting and C08.2 sites are shared with C08
-    c08.rule_steps(ctx, fi, it, rule_acc="C07.5", rule_site=None, dop=dop)
+    itn, gform = c08.fiber_interp(pkg, "nonzero")
+    c08.rule_steps(ctx, fi, itn, rule_acc="C07.5", rule_site=None, dop=c08.find_dop(itn)[0], gamma=gform)
     # gamma == 0 -> single full-length step
     it0 = Interp(pkg, assumptions={"show_progress": False, "input.noise": "none", "gamma": 0}, param_classes={"input": "optical_signal"})
     it0.run(fi)
     first_h = None
-    hname = c08.step_variable(fi, it, dop)
+    hname = c08.step_variable(fi, itn, c08.find_dop(itn)[0], gamma=gform)
     for f, stmt, name, val, conds, depth in it0.assign_log:
         if depth == 0 and name == hname:
             first_h = (val, stmt)
